@@ -8,7 +8,7 @@
    particular no genericity: repeated and zero eigenvalues are covered. *)
 From Coq Require Import String List Reals.
 Import ListNotations.
-From FV.C17 Require Import Model ProofsSym ProofsPoly ProofsEig ProofsAlign ProofsPlace.
+From FV.C17 Require Import Model ProofsSym ProofsPoly ProofsEig ProofsAlign ProofsPlace ProofsBind.
 From FV.C17.gen Require Import TensorIdx.
 Open Scope R_scope.
 
@@ -108,6 +108,37 @@ Theorem C17_lte_names_link :
   convert_lte_global2local_writes = convert_lte_local2global_reads /\
   convert_lte_local2global_writes = convert_lte_global2local_reads.
 Proof. split; reflexivity. Qed.
+
+(* ---- thermal expansion per ELEMENT: the values are per element id ----
+   `*_bound_by_id` are translated from the tree under test: do the two methods
+   attach the rows they compute to the ids of the attribute the rows were computed
+   from (update_data(ids_of_that_attribute, ...), other attributes read through
+   filter_with_ids(those ids)), or positionally to self.elements.ids.
+   FULL STATEMENT: for every elemental table T of expansion tensors (any id order,
+   any order of self.elements.ids), global -> local -> global returns, for every
+   element id, that element's tensor.  Proved when both methods bind by id;
+   refuted for positional attachment (already for identity row functions). *)
+Theorem C17_lte_roundtrip_per_element :
+  andb convert_lte_global2local_bound_by_id convert_lte_local2global_bound_by_id = true ->
+  forall eigh, (forall M, sym33 M -> eigh_ok M (eigh M)) ->
+  forall (T : table (vec R)) (e e' : list Z), Forall (fun L => length L = 6%nat) (map snd T) ->
+  forall i,
+    tlookup i (attach true e' (fun lo => convert_lte_local2global ROps (fst lo) (snd lo))
+                 (attach true e (convert_lte_global2local ROps eigh) T)) = tlookup i T.
+Proof.
+  intros _ eigh Hs T e e' HT i.
+  apply (roundtrip_by_id (fun L => length L = 6%nat)); [|exact HT].
+  intros L HL. pose proof (lte_roundtrip eigh Hs L HL) as H.
+  destruct (convert_lte_global2local ROps eigh L) as [l o]. apply H.
+Qed.
+
+Theorem C17_lte_positional_binding_refuted :
+  andb convert_lte_global2local_bound_by_id convert_lte_local2global_bound_by_id = false ->
+  exists (f g : nat -> nat) (t : table nat) (e : list Z),
+    (forall x, g (f x) = x) /\ NoDup (map fst t) /\
+    (forall i, In i e <-> In i (map fst t)) /\ NoDup e /\
+    exists i, tlookup i (attach false e g (attach false e f t)) <> tlookup i t.
+Proof. intros _. exact roundtrip_positional_refuted. Qed.
 
 (* ---- sparse alignment ----
    Model.align_nnz mirrors femio's align_nnz as of /repo 0213dd3 (hand model;
